@@ -35,6 +35,13 @@ func (o *OneOfExpression) Type(
 		if !isObject {
 			return nil, fmt.Errorf("type of OneOf option is not an object; got %T", inferredType)
 		}
+		// The discriminator is added to the option's data, so an option may not have a field of that name
+		// already. The schema library only finds that out later, and panics.
+		if _, conflicts := inferredObjectType.Properties()[o.Discriminator]; conflicts {
+			return nil, fmt.Errorf(
+				"the discriminator %q of the OneOf is also a field of its option %q; choose another discriminator name",
+				o.Discriminator, optionID)
+		}
 		schemas[optionID] = inferredObjectType
 	}
 	return schema.NewOneOfStringSchema[any](schemas, o.Discriminator, false), nil
